@@ -30,12 +30,12 @@
 //   est  SYS ENV starts <n> (<reals>)*n GOAL cell=<bits> k=<n> att=<n> bias=<bits> seed=<n> iters=<n>   -> result + `estplay …`
 //   kpiece SYS ENV starts <n> (<reals>)*n GOAL cell=<bits> nclose=<n> bias=<bits> seed=<n> iters=<n>   -> result + `kpieceplay …`
 //   pdst SYS ENV starts <n> (<reals>)*n GOAL k=<n> bias=<bits> seed=<n> iters=<n> [resume=<n> clearsol=<0|1>]   -> result(s) + `pdstplay …`
-//   hist <planner> SYS ENV starts <n> (<reals>)*n GOAL k=<n> bias=<bits> seed=<n> [steer=<0|1>] [nest=<n>] ops
+//   hist <planner> SYS ENV starts <n> (<reals>)*n GOAL k=<n> bias=<bits> seed=<n> [steer=<0|1>] [nest=<n>] [fvs=<n>] ops
 //        (solve <budget> | clear | clearsol | cb <lo0> <lo1> <hi0> <hi1> | mm <min> <max> | dt <bits> | setup)*      (see opHist)
 //   sampler (real <dim> <lo*dim> <hi*dim> | disc <lo> <hi>) lseed=<n> ops (B <bounds> | S | N | K <a> <b> | R <lseed>)*
 //   dsampler SYS ENV k=<n> lseed=<n> [steer=<0|1>] ops (B <lo0> <lo1> <hi0> <hi1> | M <min> <max> | D <dt> | R <lseed> | T <src> <dest>)*
 //   nest SYS ENV hook=<v|p> at=<k> CALL CALL      CALL ::= (pwv | prop) FORM <steps> st <reals> ct <reals>           (see opNest)
-//   plan <planner> SYS ENV starts <n> (<reals>)*n GOAL k=<n> steer=<0|1> bias=<bits> seed=<n> budget=<n>
+//   plan <planner> SYS ENV starts <n> (<reals>)*n GOAL k=<n> steer=<0|1> bias=<bits> seed=<n> budget=<n> [fvs=<n>]
 //
 // doubles are decimal u64 bit patterns.  The three systems are written here once (SysPropagator) and
 // once in Lean (Driver/Control.lean) with the same operation order.
@@ -1779,6 +1779,8 @@ static std::string opPdst(const Toks &t, std::string &playLine)
     return out;
 }
 
+// Syclop's free-volume estimate (setup of the first solve): 0 = the library default (100000 sampled states, each validity-checked)
+static unsigned long g_fvs = 0;
 static ob::PlannerPtr makeControlPlanner(const std::string &name, const std::shared_ptr<oc::SpaceInformation> &si, const Sys &sys,
                                          double bias)
 {
@@ -1831,6 +1833,8 @@ static ob::PlannerPtr makeControlPlanner(const std::string &name, const std::sha
             planner = std::make_shared<oc::SyclopRRT>(si, dec);
         else
             planner = std::make_shared<oc::SyclopEST>(si, dec);
+        if (g_fvs > 0)
+            static_cast<oc::Syclop *>(planner.get())->setNumFreeVolumeSamples((int)g_fvs);
     }
     else
         throw vp::ParseError("planner " + name);
@@ -1850,7 +1854,10 @@ static std::string opPlan(const Toks &t)
     double bias = needKVbits(t, i, "bias");
     unsigned long seed = needKV(t, i, "seed");
     unsigned long budget = needKV(t, i, "budget");
-    if (i != t.size() || budget > 5000000 || k < 1 || k > 50)
+    g_fvs = 0;
+    if (i < t.size() && t[i].rfind("fvs=", 0) == 0)   // optional: Syclop::setNumFreeVolumeSamples
+        g_fvs = needKV(t, i, "fvs");
+    if (i != t.size() || budget > 5000000 || k < 1 || k > 50 || g_fvs > 1000000)
         throw vp::ParseError("plan args");
     ompl::RNG::setSeed(seed + 1);
     const Sys &sys = pb.sys;
@@ -1978,6 +1985,11 @@ static std::string opHist(const Toks &t)
         steer = needKV(t, i, "steer");
     if (i < t.size() && t[i].rfind("nest=", 0) == 0)
         nest = needKV(t, i, "nest");
+    g_fvs = 0;
+    if (i < t.size() && t[i].rfind("fvs=", 0) == 0)
+        g_fvs = needKV(t, i, "fvs");
+    if (g_fvs > 1000000)
+        throw vp::ParseError("fvs");
     expect(t, i, "ops");
     std::vector<HistOp> ops;
     while (i < t.size())
